@@ -46,12 +46,14 @@ pub fn configs(prop: &str) -> Vec<Config> {
             e("remnants"),
             c("storage", 40_000, 1_500_000),
             c("text", 40_000, 1_500_000),
+            c("shapes", 30_000, 1_000_000),
         ],
         "C11" => vec![c("backends", 8_000, 250_000), c("typed", 6_000, 150_000)],
         "C12" => vec![
             c("hash", 10_000, 300_000),
             c("history", 4_000, 120_000),
             c("threads", 4_000, 120_000),
+            Config { kind: "process", quick: 2, thorough: 2, exhaustive: true },
         ],
         "C13" => vec![c("validate", 12_000, 400_000), c("torn", 12_000, 400_000)],
         "C14" => vec![c("roundtrip", 10_000, 300_000), c("torn", 4_000, 100_000)],
